@@ -217,8 +217,10 @@ def conversion_plan(tier, rng):
     # two gates: the first gate prepares a generic input state for the second (256 branches each)
     pool = [g_h, g_s, lambda: g_rz(rng.choice(ang)), lambda: g_xzx(rng.choice(ang), rng.choice(ang), rng.choice(ang))]
     # a generic XZX rotation first, so that every correction of the second gate matters (an X correction is invisible on |+>)
+    #   every second gate x every conversion variant
     for k, g2 in enumerate([g_h(), g_s(), g_rz(rng.choice(ang)), g_xzx(rng.choice(ang), rng.choice(ang), rng.choice(ang))]):
-        plan.append(([g_xzx(1, 2, 3) if k % 2 == 0 else g_xzx(3, 1, 2), g2], [0], ("plain", "diag", "dmcm", "plain")[k], True, 0))
+        for variant in ("plain", "diag", "dmcm"):
+            plan.append(([g_xzx(1, 2, 3) if k % 2 == 0 else g_xzx(3, 1, 2), g2], [0], variant, True, 0))
     pairs = list(itertools.product(range(4), repeat=2))
     rng.shuffle(pairs)
     for (i, j) in pairs[:2 if q else 16]:
